@@ -292,7 +292,34 @@ Definition mint_ext (E : env) (pre : state) (o : op) (post : state) : option N :
   | _ => None
   end.
 
-Fixpoint monitor_ext (E : env) (born : list (name * N)) (mext : list N) (pre : state)
+(* K13: the refund of a redeem tracker equals what its owner was debited when the tracker was
+   created — both read off the OBSERVED balances of the owner (no oracle involved).  [debits]
+   accumulates (name, observed debit) at every accepted redeem that creates a tracker. *)
+Definition redeem_debit (E : env) (pre : state) (o : op) (post : state) : option (name * Z) :=
+  match o with
+  | Redeem a x =>
+      let n := x_name (e_tx E x) in
+      if negb (has (ongoing pre) n) && has (ongoing post) n && negb (N.eqb a (e_supply E))
+      then Some (n, balof (bal pre) a - balof (bal post) a) else None
+  | _ => None
+  end.
+Definition k_refund_eq_debit (E : env) (debits : list (name * Z)) (pre : state) (o : op) (post : state) : bool :=
+  match pays pre o post, o with
+  | Some (false, n), Report _ _ _ _ _ =>
+      match ongoing pre !! n with
+      | Some t =>
+          if (t_type t =? T_REDEEM) && negb (N.eqb (t_owner t) (e_supply E)) then
+            match find (fun p => N.eqb p.1 n) debits with
+            | Some (_, d) => balof (bal post) (t_owner t) - balof (bal pre) (t_owner t) =? d
+            | None => false
+            end
+          else true
+      | None => true
+      end
+  | _, _ => true
+  end.
+
+Fixpoint monitor_ext (E : env) (born : list (name * N)) (mext : list N) (debits : list (name * Z)) (pre : state)
          (ops : list op) (os : list obs) (i : nat) : list (nat * nat * nat) :=
   match ops, os with
   | o :: ops', b :: os' =>
@@ -301,7 +328,9 @@ Fixpoint monitor_ext (E : env) (born : list (name * N)) (mext : list N) (pre : s
       let me := mint_ext E pre o post in
       (if k_ext_unique born fresh then [] else [(i, 11%nat, 0%nat)]) ++
       (match me with Some e => if existsb (N.eqb e) mext then [(i, 12%nat, 0%nat)] else [] | None => [] end) ++
-      monitor_ext E (fresh ++ born) (match me with Some e => e :: mext | None => mext end) post ops' os' (S i)
+      (if k_refund_eq_debit E debits pre o post then [] else [(i, 13%nat, 0%nat)]) ++
+      monitor_ext E (fresh ++ born) (match me with Some e => e :: mext | None => mext end)
+                  (match redeem_debit E pre o post with Some p => p :: debits | None => debits end) post ops' os' (S i)
   | _, _ => []
   end.
 
@@ -325,7 +354,7 @@ Fixpoint spec_violations (i : nat) (cs : list case) : list (nat * nat * nat * na
   | c :: rest =>
       map (fun '(j, k, cl) => (i, j, k, cl))
           (monitor (case_env c) false [] [] (init (list_to_map (c_bal0 c))) (c_ops c) (c_obs c) 0 ++
-           monitor_ext (case_env c) [] [] (init (list_to_map (c_bal0 c))) (c_ops c) (c_obs c) 0) ++
+           monitor_ext (case_env c) [] [] [] (init (list_to_map (c_bal0 c))) (c_ops c) (c_obs c) 0) ++
       spec_violations (S i) rest
   end.
 
